@@ -619,32 +619,8 @@ theorem valuesOf_pairsOf (m : MagnetObj) :
 
 /-! ### the setters on the parsed values -/
 
-theorem noFold_of_valid (ih : Str) (h : validHash ih = true) : NoFold ih = true := by
-  simp only [validHash, Hex40, B32x32, Bool.or_eq_true, Bool.and_eq_true, decide_eq_true_eq,
-    List.all_eq_true] at h
-  simp only [NoFold, List.all_eq_true, Bool.not_eq_true']
-  intro c hc
-  have : isHexAscii c = true ∨ isB32Ascii c = true := by
-    rcases h with ⟨_, h⟩ | ⟨_, h⟩
-    · exact Or.inl (h c hc)
-    · exact Or.inr (h c hc)
-  have hle : c.toNat ≤ 122 := by
-    simp only [isHexAscii, isB32Ascii, isDigit, isLowerAZ, isUpperAZ, inR, Bool.or_eq_true,
-      Bool.and_eq_true, decide_eq_true_eq] at this
-    omega
-  simp only [isFold, foldsTo]
-  have h1 : ¬ c.toNat = 0x130 := by omega
-  have h2 : ¬ c.toNat = 0x131 := by omega
-  have h3 : ¬ c.toNat = 0x17f := by omega
-  have h4 : ¬ c.toNat = 0x212a := by omega
-  simp [h1, h2, h3, h4]
-
 theorem construct_urn (ih : Str) (h : validHash ih = true) :
     construct (urnPrefix ++ ih) = (none, some ih) := by
-  have hnf : NoFold (urnPrefix ++ ih) = true := by
-    have := noFold_of_valid ih h
-    simp only [NoFold, List.all_append, Bool.and_eq_true] at this ⊢
-    exact ⟨by decide, this⟩
   have hlen : validHash (urnPrefix ++ ih) = false := by
     have hl : ih.length = 40 ∨ ih.length = 32 := by
       simp only [validHash, Hex40, B32x32, Bool.or_eq_true, Bool.and_eq_true, decide_eq_true_eq] at h
@@ -652,12 +628,12 @@ theorem construct_urn (ih : Str) (h : validHash ih = true) :
     simp only [validHash, Hex40, B32x32, List.length_append, urnPrefix_length]
     rcases hl with hl | hl <;> simp [hl]
   have h1 : infohashRe (urnPrefix ++ ih) = none := by
-    have := infohashRe_isSome_noFold _ hnf
+    have := infohashRe_isSome (urnPrefix ++ ih)
     rw [hlen] at this
     simpa using this
   have hdrop : (urnPrefix ++ ih).drop 9 = ih := by simp [urnPrefix]
   have h2 : xtRe (urnPrefix ++ ih) = some ih := by
-    rw [xtRe_noFold _ _ hnf, hdrop]
+    rw [xtRe_eq_some, hdrop]
     refine ⟨?_, h, rfl⟩
     have : (urnPrefix ++ ih).take 9 = urnPrefix := by simp [urnPrefix]
     simp only [hasUrn, this]
@@ -706,11 +682,15 @@ theorem setUrls_ok (isUrl : Str → Bool) (us : List Str) (h : us.all (urlOk isU
     intro u hu; exact plusForSpace_noSpace u (urlOk_iff isUrl u (h u hu)).2
   unfold setUrls
   rw [mapM_mkUrl]
-  have hall : us.all isUrl = true := by
-    rw [List.all_eq_true]; intro u hu; exact (urlOk_iff isUrl u (h u hu)).1
+  have hacc : ∀ u ∈ us, urlAccepts isUrl u = true := by
+    intro u hu
+    obtain ⟨h1, h2⟩ := urlOk_iff isUrl u (h u hu)
+    simp [urlAccepts, plusForSpace_noSpace u h2, h1]
+  have hall : us.all (urlAccepts isUrl) = true := List.all_eq_true.mpr hacc
   simp only [hall, if_true, hmap]
-  rw [insertAll_stable isUrl [] us (fun u hu =>
-    ⟨(urlOk_iff isUrl u (h u hu)).1, plusForSpace_noSpace u (urlOk_iff isUrl u (h u hu)).2⟩)]
+  rw [insertAll_stable isUrl [] us (fun u hu => by
+    have := mkUrl_coerced isUrl u (hacc u hu)
+    rwa [plusForSpace_noSpace u (urlOk_iff isUrl u (h u hu)).2] at this)]
   rw [dedup_nodup [] us (by simpa using hn)]
   rfl
 
